@@ -10,7 +10,7 @@ import numpy as np
 PROP = "C03"
 LEVEL = "exploration"
 VARIANTS = ("omp",)
-CASE_TIMEOUT = 240
+CASE_TIMEOUT = 1200
 RULE = ("cases = zoo crystal x supercell x primitive matrix x FC class (arbitrary periodic | periodic+ASR | space-group projected) x "
         "full/compact x dense/sparse x lang C/Py; identities per case: D=D^dagger, D(-q)=conj D(q), spec D(q+G)=spec D(q) (G in [-3,3]^3), "
         "spec D(Rq)=spec D(q) for all reciprocal operations (symmetric FC with measured symmetry precondition only), three zero eigenvalues at Gamma (ASR), "
@@ -28,7 +28,7 @@ def gen_cases(tier, seed):
 
     rng = np.random.default_rng([seed, 3])
     max_atoms = 54 if tier == "quick" else 108
-    per = 8 if tier == "quick" else 40
+    per = 8 if tier == "quick" else 110
     cases = []
     for name in crystals.ZOO:
         nu = crystals.natoms(name)
